@@ -62,59 +62,221 @@ INT_BAD = [('1/0', '1/0'), ('1//0', '1//0'), ('1%0', '1%0'), ('"1/ 0"', '1/ 0'),
            ('"1 if"', '1 if'), ('0x', '0x'), ('""', ''), ("''", ''), ('1,2', '1,2'), ('[1]', '[1]'), ('None', 'None'),
            ('007', '007'), ('"1 +"', '1 +'), ('1-', '1-'), ('[][0]', '[][0]'), ('{}[1]', '{}[1]'),
            ('"(1).x"', '(1).x'), ('"1 2"', '1 2'), ('é', 'é'), ('"(1,2)[5]"', '(1,2)[5]'), ('2**-1', '2**-1'),
-           ('1e400', '1e400'), ('"1 == 1 == "', '1 == 1 == '), ('"lambda: 1"', 'lambda: 1')]
+           ('1e400', '1e400'), ('"1 == 1 == "', '1 == 1 == '), ('"lambda: 1"', 'lambda: 1'),
+           # one expression per exception class Python can raise from eval() of harmless text
+           ('2.0**10000', '2.0**10000'),  # OverflowError
+           ('[0]*10**15', '[0]*10**15'),  # MemoryError (refused at once: larger than the address space)
+           ('"(lambda f: f(f))(lambda f: f(f))"', '(lambda f: f(f))(lambda f: f(f))'),  # RecursionError
+           ('next(iter([]))', 'next(iter([]))'),  # StopIteration
+           ('"\'\'.encode(\'nocodec\')"', "''.encode('nocodec')"),  # LookupError
+           ('"\'\\ud800\'.encode()"', "'\\ud800'.encode()"),  # UnicodeEncodeError
+           ('"b\'\\xff\'.decode()"', "b'\\xff'.decode()"),  # UnicodeDecodeError
+           ('"int(\'9\' * 5000)"', "int('9' * 5000)"),  # ValueError: int <- str digit limit
+           ('"f\'{10**4300}\'"', "f'{10**4300}'"),  # ValueError: str <- int digit limit
+           ('[].pop()', '[].pop()'), ('{}.popitem()', '{}.popitem()'), ('divmod(1,0)', 'divmod(1,0)'),
+           ('int()()', 'int()()'), ('"1 if [][0] else 2"', '1 if [][0] else 2'), ('"(yield)"', '(yield)'),
+           ('1j', '1j'), ("b'1'", "b'1'"), ('...', '...'), ('int', 'int'), ('NotImplemented', 'NotImplemented'),
+           ('"1;2"', '1;2'), ('"x = 1"', 'x = 1'), ('"import os"', 'import os'), ('"\\n1"', '\\n1'),
+           ('"1\\"', '1\\'), ('١٢', '١٢'), ("'\"1'", '"1'), ('١', '١'), ('²', '²'), ('1__0', '1__0'),
+           ('0_', '0_'), ('09', '09'), ('1L', '1L'), ('0x_', '0x_'), ('1e', '1e'), ('.', '.'), ('-', '-'),
+           ('"not"', 'not'), ('"1 is"', '1 is'), ('"*1"', '*1'), ('"**{}"', '**{}'),
+           ('(' * 300 + '1' + ')' * 300, '(' * 300 + '1' + ')' * 300),  # too many nested parentheses
+           ('-' * 3000 + '1', '-' * 3000 + '1'),
+           # values that depend on a directory of the sandbox / of the home directory structure (validated late)
+           ('@[EXACTLY_ACT]@', '@[EXACTLY_ACT]@'), ('"1 + @[EXACTLY_TMP]@"', '1 + @[EXACTLY_TMP]@'),
+           ('"len(@[EXACTLY_ACT]@)"', 'len(@[EXACTLY_ACT]@)'), ('"\'@[EXACTLY_RESULT]@\'"', "'@[EXACTLY_RESULT]@'"),
+           ('@[EXACTLY_HOME]@', '@[EXACTLY_HOME]@'), ('"1/len(\'@[EXACTLY_ACT]@\'[:0])"', "1/len('@[EXACTLY_ACT]@'[:0])")]
 INT_EXTREME = [('10**100', '10**100'), ('-10**100', '-10**100'), ('2**64', '2**64'), ('-2**63', '-2**63'),
                ('1_000', '1_000'), ('True', 'True'), ('0b11', '0b11'), ('0o17', '0o17'), ('"  3"', '  3'),
                ('-0', '-0'), ('+1', '+1'), ('~0', '~0'), ('"3 "', '3 '), ('(((1)))', '(((1)))'),
                ('99999999999999999999', '99999999999999999999'), ('"1 if 1 else 2"', '1 if 1 else 2'),
-               ('1<<70', '1<<70'), ('"len(\'abc\')"', "len('abc')"), ('-1', '-1'), ('256', '256'), ('1e0', '1e0')]
+               ('1<<70', '1<<70'), ('"len(\'abc\')"', "len('abc')"), ('-1', '-1'), ('256', '256'), ('1e0', '1e0'),
+               # just below / beyond the limit of Python's int -> str conversion (4300 digits)
+               ('10**4299', '10**4299'), ('10**4300', '10**4300'), ('-10**4300', '-10**4300'),
+               ('10**5000', '10**5000'), ('10**400', '10**400'), ('-10**400', '-10**400'),
+               ('"0 if 1 else 1/0"', '0 if 1 else 1/0'), ('"not 1"', 'not 1'), ('"1 and 2"', '1 and 2'),
+               ('0_0', '0_0'), ('"\t1"', '\t1'), ('"1\n"', '1\n'), ('"(1)"', '(1)'), ('"-(-1)"', '-(-1)'),
+               ('0x7fffffffffffffff', '0x7fffffffffffffff'), ('2147483648', '2147483648'),
+               ('-' * 100 + '1', '-' * 100 + '1'), ('(' * 50 + '1' + ')' * 50, '(' * 50 + '1' + ')' * 50),
+               ('"len(\'@[EXACTLY_ACT]@\')"', "len('@[EXACTLY_ACT]@')"), ('"len(\'@[EXACTLY_HOME]@\')"', "len('@[EXACTLY_HOME]@')"),
+               ('" 1"', ' 1'), ('"1 # c"', '1 # c'), ('"[1][0]"', '[1][0]'), ('"{1: 2}[1]"', '{1: 2}[1]')]
 REGEX_BAD = [("'('", '('), ("'['", '['), ("'*a'", '*a'), ("'(?P<'", '(?P<'), ("'a{2,1}'", 'a{2,1}'), ("')'", ')'),
              ("'a**'", 'a**'), ("'(?P<n>a)(?P<n>b)'", '(?P<n>a)(?P<n>b)'), ("'\\'", '\\'), ("'(?<=a+)b'", '(?<=a+)b'),
              ("'[b-a]'", '[b-a]'), ("'(?z)'", '(?z)'), ("'\\g'", '\\g'), ('"("', '('), ('*a', '*a'), ("'(a'", '(a'),
              ("'a)'", 'a)'), ("'+'", '+'), ("'?'", '?'), ("'(?P=x)'", '(?P=x)'), ("'\\1'", '\\1'),
              ("'(?'", '(?'), ("'[[:alpha:]'", '[[:alpha:]'), ("'a{1,2}{3}'", 'a{1,2}{3}'), ("'(?i'", '(?i'),
-             ("'\\N{x}'", '\\N{x}'), ("'\\x1'", '\\x1'), ("'(?P<1a>x)'", '(?P<1a>x)')]
+             ("'\\N{x}'", '\\N{x}'), ("'\\x1'", '\\x1'), ("'(?P<1a>x)'", '(?P<1a>x)'),
+             ("'a{4294967296}'", 'a{4294967296}'), ("'a{99999999999999999999}'", 'a{99999999999999999999}'),
+             ("'(?<!a*)b'", '(?<!a*)b'), ("'[a-\\d]'", '[a-\\d]'), ("'\\8'", '\\8'), ("'(?(1)a|b)'", '(?(1)a|b)'),
+             ("'(a)(?(1)b|c|d)'", '(a)(?(1)b|c|d)'), ("'a{2}{3}'", 'a{2}{3}'), ("'(?Lu)a'", '(?Lu)a'),
+             ("'(?P<n>'", '(?P<n>'), ("'(?P<n>a'", '(?P<n>a'), ("'(?P<é-1>a)'", '(?P<é-1>a)'), ("'\\p{L}'", '\\p{L}'),
+             ("'(?-i)a'", '(?-i)a'), ("'a(?i)b'", 'a(?i)b'), ("'[\\'", '[\\'), ("'(?#'", '(?#'), ("'\\u12'", '\\u12'),
+             ("'\\U00110000'", '\\U00110000'), ("'(?P=1)'", '(?P=1)'), ("'(?<a>b)'", '(?<a>b)'), ("'a++b{'", 'a++b{'),
+             ("'" + '(' * 1200 + 'a' + ')' * 1200 + "'", '(' * 1200 + 'a' + ')' * 1200),
+             # ill-formed, and the value depends on a directory (validated when the sandbox exists)
+             ('"(@[EXACTLY_ACT]@"', '(@[EXACTLY_ACT]@'), ('"@[EXACTLY_TMP]@["', '@[EXACTLY_TMP]@['),
+             ('"*@[EXACTLY_RESULT]@"', '*@[EXACTLY_RESULT]@'), ('"(@[EXACTLY_HOME]@"', '(@[EXACTLY_HOME]@'),
+             ('"@[EXACTLY_ACT_HOME]@(?P<"', '@[EXACTLY_ACT_HOME]@(?P<'), ('"@[EXACTLY_ACT]@{2,1}"', '@[EXACTLY_ACT]@{2,1}')]
 REGEX_EXTREME = [("''", ''), ("'(?i)a'", '(?i)a'), ("'a{0,65535}'", 'a{0,65535}'), ("'\\Z'", '\\Z'), ("'(?s).'", '(?s).'),
                  ("'[]]'", '[]]'), ("'{'", '{'), ("'a{,}'", 'a{,}'), ("'(?#c)'", '(?#c)'), ("'\\x00'", '\\x00'),
                  ("'é+'", 'é+'), ("'(?a)\\w'", '(?a)\\w'), ("'()'", '()'), ("'(?:)'", '(?:)'), ("'$^'", '$^'),
-                 ("'\\\\'", '\\\\'), ("' '", ' '), ("'a|'", 'a|'), ("'(?P<n>a)(?P=n)'", '(?P<n>a)(?P=n)')]
+                 ("'\\\\'", '\\\\'), ("' '", ' '), ("'a|'", 'a|'), ("'(?P<n>a)(?P=n)'", '(?P<n>a)(?P=n)'),
+                 ("'" + '(' * 90 + 'a' + ')' * 90 + "'", '(' * 90 + 'a' + ')' * 90), ("'a{65535}'", 'a{65535}'),
+                 ("'(?x) a b # c'", '(?x) a b # c'), ("'\\N{DIGIT ONE}'", '\\N{DIGIT ONE}'), ("'[\\s\\S]'", '[\\s\\S]'),
+                 ("'(?s:.)'", '(?s:.)'), ("'\\A\\Z'", '\\A\\Z'), ("'(a)|b'", '(a)|b'), ("'(?=a)'", '(?=a)'),
+                 ("'(?<=a)b'", '(?<=a)b'), ("'" + 'a?' * 20 + 'a' * 20 + "'", 'a?' * 20 + 'a' * 20),
+                 ("'\\000'", '\\000'), ("'[^\\n]'", '[^\\n]'), ("'\\.'", '\\.'), ("'" + 'é' * 300 + "'", 'é' * 300)]
 REPL_BAD = [("'\\1'", '\\1'), ("'\\g<'", '\\g<'), ("'\\g<9>'", '\\g<9>'), ("'\\g<n>'", '\\g<n>'), ("'\\'", '\\'),
             ("'\\q'", '\\q'), ("'\\400'", '\\400'), ("'\\g<1'", '\\g<1'), ("'\\g<-1>'", '\\g<-1>'), ("'\\6'", '\\6'),
             ("'x\\2y'", 'x\\2y'), ("'\\g<1a>'", '\\g<1a>'), ("'\\c'", '\\c'), ('"\\1"', '\\1'), ("'\\g<>'", '\\g<>'),
-            ("'\\99'", '\\99'), ("'a\\'", 'a\\'), ("'\\g'", '\\g'), ("'\\Z'", '\\Z')]
+            ("'\\99'", '\\99'), ("'a\\'", 'a\\'), ("'\\g'", '\\g'), ("'\\Z'", '\\Z'),
+            ("'\\g<99999999999999999999>'", '\\g<99999999999999999999>'), ("'\\g<0'", '\\g<0'),
+            ("'\\g< 1>'", '\\g< 1>'), ("'\\g<+1>'", '\\g<+1>'), ("'\\8'", '\\8'), ("'\\x'", '\\x'), ("'\\U'", '\\U'),
+            ("'\\N{DASH}'", '\\N{DASH}'), ("'\\g<1>\\g<2>'", '\\g<1>\\g<2>'), ("'\\g<é>'", '\\g<é>'),
+            ("'\\g<a b>'", '\\g<a b>'), ("'\\1\\'", '\\1\\'), ("'\\d'", '\\d'), ("'\\A'", '\\A'), ("'\\w+'", '\\w+'),
+            ("'\\x41'", '\\x41'), ("'\\u00e9'", '\\u00e9'), ("'\\g<_>'", '\\g<_>'), ("'\\g<1>0\\2'", '\\g<1>0\\2'), ('"x\\"', 'x\\'),
+            ('"@[EXACTLY_ACT]@\\1"', '@[EXACTLY_ACT]@\\1'), ('"\\g<@[EXACTLY_TMP]@>"', '\\g<@[EXACTLY_TMP]@>'),
+            ('"\\9@[EXACTLY_HOME]@"', '\\9@[EXACTLY_HOME]@'), ('"@[EXACTLY_RESULT]@\\"', '@[EXACTLY_RESULT]@\\')]
 REPL_EXTREME = [("'\\g<0>'", '\\g<0>'), ("'\\0'", '\\0'), ("'\\n'", '\\n'), ("'\\\\'", '\\\\'), ("'\\&'", '\\&'),
                 ("'\\t\\r'", '\\t\\r'), ("'\\100'", '\\100'), ("''", ''), ("'\\g<0>\\g<0>'", '\\g<0>\\g<0>'),
-                ("'\\\\1'", '\\\\1'), ("'\\.'", '\\.'), ('\\1', '1')]
+                ("'\\\\1'", '\\\\1'), ("'\\.'", '\\.'), ('\\1', '1'), ("'\\g<00>'", '\\g<00>'), ("'\\a\\b\\f\\v'", '\\a\\b\\f\\v'),
+                ("'\\377'", '\\377'), ("'\\00'", '\\00'),
+                ("'" + '\\g<0>' * 200 + "'", '\\g<0>' * 200), ("'é✓'", 'é✓'), ("' '", ' '), ("'\\ '", '\\ '),
+                ("'\\\\g<1>'", '\\\\g<1>'), ("'\\\\\\n'", '\\\\\\n')]
 GLOB_EXTREME = [("'['", '['), ("'[!'", '[!'), ("'[]'", '[]'), ("'[a'", '[a'), ("'[!]'", '[!]'), ("'***'", '***'),
                 ("'?'", '?'), ("''", ''), ("'a/'", 'a/'), ("'\\'", '\\'),
                 ("'[z-a]'", '[z-a]'), ("'[[]'", '[[]'), ("'**'", '**'), ("'**/*'", '**/*'), ("'a//b'", 'a//b'),
                 ("'{a,b}'", '{a,b}'), ("'é*'", 'é*'), ("'[^a]'", '[^a]'), ("'*/'", '*/'), ("'./x'", './x'),
                 ("'[\\]'", '[\\]'), ("'[!-]'", '[!-]'), ("'.'", '.'), ("'./'", './'), ('""', ''), ("'a/./b'", 'a/./b'),
-                ("' '", ' ')]
+                ("' '", ' '), ("'" + '[' * 300 + "'", '[' * 300), ("'" + '*a' * 40 + "'", '*a' * 40), ("'[a-]'", '[a-]'),
+                ("'[--0]'", '[--0]'), ("'[]-]'", '[]-]'), ("'[!]a]'", '[!]a]'), ("'\\*'", '\\*'), ("'a\nb'", 'a\nb'),
+                ("'" + 'a' * 300 + "*'", 'a' * 300 + '*'), ("'(a|b)'", '(a|b)'), ("'a$'", 'a$'), ("'^a'", '^a'),
+                ("'[[:alpha:]]'", '[[:alpha:]]'), ("'.*'", '.*'), ("'*.*.*'", '*.*.*'), ("'@[UNDEFINED]@'", '@[UNDEFINED]@')]
 RANGE_BAD = [('1:2:3', '1:2:3'), ('a', 'a'), ('1:b', '1:b'), ('2.5', '2.5'), ('1/0', '1/0'), ('"1 2"', '1 2'),
              ('1:2.5', '1:2.5'), ('a:', 'a:'), (':b', ':b'), ('1:1/0', '1:1/0'), ('::', '::'), ('1::2', '1::2'),
-             ("''", ''), ('1:()', '1:()'), ('0x:', '0x:'), ('1//0:', '1//0:'), ('1:2:', '1:2:')]
+             ("''", ''), ('1:()', '1:()'), ('0x:', '0x:'), ('1//0:', '1//0:'), ('1:2:', '1:2:'), (':', ':'),
+             ('1-2:x', '1-2:x'), ('1..2', '1..2'), ('1,2', '1,2'), ('[][0]:', '[][0]:'), (':{}[1]', ':{}[1]'),
+             ('2.0**10000:', '2.0**10000:'), ('"(1:2)"', '(1:2)'), ('1;2', '1;2'), ('é', 'é'),
+             ('None:', 'None:'), (':1.0', ':1.0'), ('"-"', '-'), ('1:2:3:4', '1:2:3:4'), ('"lambda:1"', 'lambda:1')]
 RANGE_EXTREME = [('0', '0'), ('0:0', '0:0'), ('3:1', '3:1'), ('-1:1', '-1:1'), ('10**100', '10**100'),
                  (':10**100', ':10**100'), ('-10**100:', '-10**100:'), ('1:-1', '1:-1'), ('"1:2"', '1:2'),
-                 ('-0:', '-0:'), ('" 1 : 2 "', ' 1 : 2 '), ('True:', 'True:'), ('1_0:', '1_0:'), ("'2':'3'", '2:3')]
+                 ('-0:', '-0:'), ('" 1 : 2 "', ' 1 : 2 '), ('True:', 'True:'), ('1_0:', '1_0:'), ("'2':'3'", '2:3'),
+                 ('10**4300', '10**4300'), ('-10**4300:', '-10**4300:'), (':10**4300', ':10**4300'),
+                 ('10**4300:10**4300', '10**4300:10**4300'), ('0:', '0:'), (':0', ':0'), ('-1:-1', '-1:-1'),
+                 ('2:2', '2:2'), ('1-2', '1-2'), ('"1: "', '1: '), ('(1):(2)', '(1):(2)'), ('0x1:0x2', '0x1:0x2'), ('1+1:2*2', '1+1:2*2')]
 # relative names only: an absolute name could make an instruction write outside the work directory (see gate())
 PATH_EXTREME = [('""', ''), ("''", ''), ("'.'", '.'), ("'./'", './'), ("'a/'", 'a/'), ("'a//b'", 'a//b'),
                 ("'a/./b'", 'a/./b'), ("' '", ' '), ("'a b'", 'a b'), ('"*"', '*'), ("'-rel-act'", '-rel-act'),
                 ('a' * 300, 'a' * 300), ("'f.txt/x'", 'f.txt/x'), ("'d/e/'", 'd/e/'), ("'é/ü'", 'é/ü'), ("'@'", '@'),
-                ("'a\\b'", 'a\\b'), ("'~'", '~'), ("'$HOME'", '$HOME'), ("'%s'", '%s'), ("'{x}'", '{x}')]
-BAD = {'int': INT_BAD, 'regex': REGEX_BAD, 'repl': REPL_BAD, 'glob': [], 'range': RANGE_BAD, 'path': []}
+                ("'a\\b'", 'a\\b'), ("'~'", '~'), ("'$HOME'", '$HOME'), ("'%s'", '%s'), ("'{x}'", '{x}'),
+                ('a/' * 2100 + 'b', 'a/' * 2100 + 'b'), ('a/' * 300 + 'b', 'a/' * 300 + 'b'), ('é' * 200, 'é' * 200),
+                ('a' * 255, 'a' * 255), ('a' * 256, 'a' * 256), ("'a\nb'", 'a\nb'), ("'\t'", '\t'), ("'-'", '-'),
+                ("'--'", '--'), ("'f.txt/'", 'f.txt/'), ("'f.txt/.'", 'f.txt/.'), ("'d/e/f/g/h'", 'd/e/f/g/h'),
+                ("'?'", '?'), ("'con'", 'con'), ("'a:b'", 'a:b'), ('"\\"', '\\'), ("'@[UNDEFINED]@'", '@[UNDEFINED]@'),
+                ("'@[EXACTLY_ACT'", '@[EXACTLY_ACT'), ('@[S]@@[S]@', '@[S]@@[S]@'), ('@[PGM]@', '@[PGM]@'),
+                ('@[EXACTLY_HOME]@', '@[EXACTLY_HOME]@'), ("'a\x00b'", 'a\x00b'), ("'\x00'", '\x00')]
+# `timeout = INTEGER`: what is not a Python int / what is an int the manual says nothing about
+TMO_BAD = [('1.5', '1.5'), ('1/0', '1/0'), ('a', 'a'), ("''", ''), ('"1 2"', '1 2'), ('None', 'None'), ('1e3', '1e3'),
+           ('nones', 'nones'), ('"none "', 'none '), ('[][0]', '[][0]'), ('2.0**10000', '2.0**10000'), ('1s', '1s'),
+           ('0x', '0x'), ('{}[1]', '{}[1]'), ('"(1).x"', '(1).x'), ('[0]*10**15', '[0]*10**15'), ('1:2', '1:2')]
+TMO_EXTREME = [('0', '0'), ('-1', '-1'), ('-0', '-0'), ('-10**100', '-10**100'), ('10**100', '10**100'),
+               ('10**400', '10**400'), ('10**4300', '10**4300'), ('2**31', '2**31'), ('2**63', '2**63'), ('True', 'True'),
+               ('NONE', 'NONE'), ('"none"', 'none'), ('99999999999999999999', '99999999999999999999'), ('1_0', '1_0'),
+               ('10**19', '10**19'), ('-10**400', '-10**400'), ('4294967296', '4294967296')]
+# NAME of `env`: a STRING (no further condition in the manual)
+ENVNAME_EXTREME = [("''", ''), ('""', ''), ("'A=B'", 'A=B'), ("'='", '='), ("'a b'", 'a b'), ('é', 'é'), ("'A\nB'", 'A\nB'),
+                   ('1', '1'), ("'${VAR1}'", '${VAR1}'), ('A' * 300, 'A' * 300), ('A' * 5000, 'A' * 5000), ('@[S]@', '@[S]@'),
+                   ('@[UNDEFINED]@', '@[UNDEFINED]@'), ('@[L]@', '@[L]@'), ('@[TM]@', '@[TM]@'), ("'-of'", '-of'),
+                   ('unset', 'unset'), ('PATH', 'PATH'), ('HOME', 'HOME'), ("' '", ' '), ("'\t'", '\t'), ('-', '-'),
+                   ("'a\x00b'", 'a\x00b')]
+# SYMBOL-NAME: "A combination of alphanumeric characters and underscores."
+NAME_BAD = [('a-b', 'a-b'), ('a.b', 'a.b'), ('"a b"', 'a b'), ('@[S]@', '@[S]@'), ('a=', 'a='), ('-x', '-x'), ('S!', 'S!'),
+            ('(', '('), ('{', '{'), ('a/b', 'a/b'), ('a:b', 'a:b'), ('a+b', 'a+b'), ('$a', '$a'), ('a,b', 'a,b'), ('[a]', '[a]'),
+            ('a*', 'a*'), ('@', '@'), ('#a', '#a'), ('a#', 'a#'), ('~', '~'), ('a|b', 'a|b'), ('"a\tb"', 'a\tb')]
+NAME_EXTREME = [('_', '_'), ('1', '1'), ('é', 'é'), ('A' * 300, 'A' * 300), ('A' * 5000, 'A' * 5000), ('EXACTLY_HOME', 'EXACTLY_HOME'),
+                ('EXACTLY_ACT', 'EXACTLY_ACT'), ('__', '__'), ('S', 'S'), ('def', 'def'), ('string', 'string'),
+                ('true', 'true'), ("'S'", 'S'), ('"S2"', 'S2'), ('١', '١'), ('²', '²'), ('a\u0301', 'a\u0301'), ('ß', 'ß'),
+                ('x' + chr(0x200d) + 'y', 'x' + chr(0x200d) + 'y'), ('ａ', 'ａ'), ("''", ''), ('=', '='), ('L', 'L'), ('PGM', 'PGM')]
+# relativity options
+REL_EXTREME = [('-rel-nope', '-rel-nope'), ('-rel-', '-rel-'), ('-REL-ACT', '-REL-ACT'), ('-rel-home-x', '-rel-home-x'),
+               ('--rel-act', '--rel-act'), ('-rel_act', '-rel_act'), ('-rel', '-rel'), ("'-rel-act'", '-rel-act'),
+               ('-rel-result', '-rel-result'), ('-rel-here', '-rel-here'), ('-rel-tmp', '-rel-tmp'), ('-rel-cd', '-rel-cd'),
+               ('-rel-home', '-rel-home'), ('-rel-act-home', '-rel-act-home'), ('-rel-act', '-rel-act'),
+               ('-rel-act -rel-tmp', '-rel-act -rel-tmp'), ('-rel UNDEFINED', '-rel UNDEFINED'), ('-rel S', '-rel S'),
+               ('-rel P', '-rel P'), ('-rel PD', '-rel PD'), ('-rel PGM', '-rel PGM'), ('-rel EXACTLY_HOME', '-rel EXACTLY_HOME'),
+               ('-rel EXACTLY_RESULT', '-rel EXACTLY_RESULT'), ('-rel @[PD]@', '-rel @[PD]@'), ("-rel ''", "-rel ''"),
+               ('-rel -rel-act', '-rel -rel-act'), ('-rel =', '-rel ='), ('-relact', '-relact'), ('-r', '-r'),
+               ('-rel-ACT', '-rel-ACT'), ('–rel-act', '–rel-act')]
+# the start of a here-document (<<MARKER, the last token of its line) and the line that ends it
+HEREDOC_EXTREME = [('<<', '<<'), ('<<-EOF', '<<-EOF'), ('<<EOF x', '<<EOF x'), ('<< EOF', '<< EOF'), ("<<'EOF'", "<<'EOF'"),
+                   ('<<"EOF"', '<<"EOF"'), ('<<é', '<<é'), ('<<EOF<<EOF', '<<EOF<<EOF'), ('<<<EOF', '<<<EOF'), ('<EOF', '<EOF'),
+                   ('<<E O F', '<<E O F'), ('<<@[S]@', '<<@[S]@'), ('<<' + 'M' * 300, '<<' + 'M' * 300), ('<<1', '<<1'),
+                   ('<<-', '<<-'), ('<<_', '<<_'), ('<<EOF ', '<<EOF '), ('<<eof', '<<eof'), ('<<END', '<<END'),
+                   ('<<[setup]', '<<[setup]'), ('<<#', '<<#'), ('<<:>', '<<:>'), ('<<EOF\\', '<<EOF\\')]
+MARKER_BAD = [('EOFX', 'EOFX'), ('XEOF', 'XEOF'), ('E0F', 'E0F'), ('EO', 'EO'), ('EOF EOF', 'EOF EOF'), ('EOF x', 'EOF x'),
+              ('"EOF"', '"EOF"'), ("'EOF'", "'EOF'"), ('<<EOF', '<<EOF'), ('EOF;', 'EOF;'), ('E OF', 'E OF'),
+              ('# EOF', '# EOF'), ('[EOF]', '[EOF]'), ('EOF\\', 'EOF\\')]
+MARKER_EXTREME = [(' EOF', ' EOF'), ('EOF ', 'EOF '), ('\tEOF', '\tEOF'), ('eof', 'eof'), ('EOF\r', 'EOF\r'), ('END', 'END'),
+                  ('MARKER_1', 'MARKER_1'), ('eof-2', 'eof-2'), ('[setup]', '[setup]'), ('[assert]', '[assert]'), ('', ''),
+                  ('EOF\x0c', 'EOF\x0c'), ('EOF' + chr(0xa0), 'EOF' + chr(0xa0)), ('EOF' + chr(0x2028), 'EOF' + chr(0x2028))]
+# a word of a closed set (status value, file type, true/false, act/!act, char-case option) replaced by a word
+# that is in none of those sets / by a word the manual does not name but that is close to one it names
+ENUM_BAD = [('maybe', 'maybe'), ('NOPE', 'NOPE'), ('-', '-'), ('1', '1'), ('é', 'é'), ('-to-title', '-to-title'),
+            ('socket', 'socket'), ('xfail', 'xfail'), ('!', '!'), ('=', '='), ('(', '('), ('@[UNDEFINED]@', '@[UNDEFINED]@'),
+            ('no', 'no'), ('0', '0'), ('-of', '-of'), ('all', 'all'), ('!!act', '!!act'), ('regular', 'regular')]
+ENUM_EXTREME = [('TRUE', 'TRUE'), ('True', 'True'), ('False', 'False'), ('pass', 'pass'), ('Fail', 'Fail'), ('skip', 'skip'),
+                ('File', 'File'), ('DIR', 'DIR'), ('ACT', 'ACT'), ('!ACT', '!ACT'), ('! act', '! act'), ("'true'", 'true'),
+                ('"PASS"', 'PASS'), ("'file'", 'file'), ('"act"', 'act'), ('-TO-UPPER', '-TO-UPPER'), ("''", ''),
+                ('@[S]@', '@[S]@'), ('true', 'true'), ('file', 'file'), ('PASS', 'PASS'), ('act', 'act'),
+                ('-to-upper', '-to-upper'), ('XFAIL', 'XFAIL'), ('XPASS', 'XPASS'), ('HARD_ERROR', 'HARD_ERROR')]
+# the patterns / names without any component are tried more often
+GLOB_EXTREME = GLOB_EXTREME + [e for e in GLOB_EXTREME if e[1] in ('', '.', './')] * 3
+PATH_EXTREME = PATH_EXTREME + [e for e in PATH_EXTREME if e[1] in ('', '.', 'a' * 300)] * 2
+BAD = {'int': INT_BAD, 'regex': REGEX_BAD, 'repl': REPL_BAD, 'glob': [], 'range': RANGE_BAD, 'path': [],
+       'tmo': TMO_BAD, 'envname': [], 'name': NAME_BAD, 'rel': [], 'heredoc': [], 'marker': MARKER_BAD, 'enum': ENUM_BAD}
 EXTREME = {'int': INT_EXTREME, 'regex': REGEX_EXTREME, 'repl': REPL_EXTREME, 'glob': GLOB_EXTREME,
-           'range': RANGE_EXTREME, 'path': PATH_EXTREME}
-VALUE_KINDS = ['int', 'regex', 'repl', 'glob', 'range', 'path']
+           'range': RANGE_EXTREME, 'path': PATH_EXTREME, 'tmo': TMO_EXTREME, 'envname': ENVNAME_EXTREME,
+           'name': NAME_EXTREME, 'rel': REL_EXTREME, 'heredoc': HEREDOC_EXTREME, 'marker': MARKER_EXTREME,
+           'enum': ENUM_EXTREME}
+VALUE_KINDS = ['int', 'regex', 'repl', 'glob', 'range', 'path', 'tmo', 'envname', 'name', 'rel', 'heredoc', 'marker',
+               'enum']
+ENUM_SETS = {'status': ['PASS', 'FAIL', 'SKIP'], 'ftype': ['file', 'dir', 'symlink'], 'bool': ['true', 'false'],
+             'of': ['act', '!act'], 'case': ['-to-upper', '-to-lower']}
+
+def vkind(kind):
+    """the vocabulary a token kind belongs to (None: the token is no value of a vocabulary)"""
+    k = kind.split(':')[0] if kind.startswith('enum:') else kind
+    return k if k in EXTREME else None
+
 GOOD = {'int': G.INTS_GOOD, 'regex': G.REGEX_GOOD, 'repl': G.REPL_GOOD, 'glob': G.GLOB_GOOD, 'range': G.RANGE_GOOD,
-        'str': ['a', '"a b"', "'x'"], 'path': ['f.txt', 'd', 'data.txt', 'nofile']}
+        'str': ['a', '"a b"', "'x'"], 'path': ['f.txt', 'd', 'data.txt', 'nofile'], 'tmo': ['5', 'none'],
+        'envname': ['VAR1'], 'name': ['Y1'], 'rel': ['-rel-act', '-rel-home'], 'heredoc': ['<<EOF'], 'marker': ['EOF'],
+        'enum:status': ['PASS'], 'enum:ftype': ['file'], 'enum:bool': ['true'], 'enum:of': ['act'],
+        'enum:case': ['-to-upper']}
 
 ALL_SYMBOL_NAMES = sorted(set(G.SYM.values())) + ['UNDEFINED', 'INC']
 
 # ---- ops --------------------------------------------------------------------------------------------------------------
 GENERIC_OPS = ['del', 'dup', 'swap', 'rep', 'ins', 'join', 'split', 'delline', 'dupline', 'swapline', 'hdr', 'hdrins',
                'quote', 'charins', 'chardel', 'wrongkind', 'badany', 'trunc', 'layout', 'moveline']
-TARGETED_OPS = ['badval', 'extreme', 'wrongref', 'badhdr', 'badinstr']
+TARGETED_OPS = ['badval', 'extreme', 'wrongref', 'badhdr', 'badinstr', 'actbad']
+# lines for the act phase (it is read by the parser of the actor, not by the parser of instructions); the only
+# programs are echo / true / the files of the case
+ACT_BAD = ['""', "''", '%', '$', '@', '@ UNDEFINED', '@ S', '@ TM', '@ PGM x', '-python', '-python -c', '-python -c pass x',
+           '-rel', '-rel-home', '-rel UNDEFINED x', '-rel S prog.sh', '-rel-act prog.sh', '-rel-result x', '-rel-here prog.sh',
+           "% echo 'a", '% echo "a', '% true\n-stdin', '% true\n-transformed-by', '% true\n-stdin x\n-stdin y',
+           '% true\n-transformed-by identity\n-transformed-by', '( % true', '% true\n)', '( % true\n) x', '(', ')',
+           '% echo <<EOF\nx', '% echo <<EOF', '% echo <<', '% echo :>', '-existing-file nofile', '% echo -existing-file nofile',
+           '% echo -existing-file', '% echo -existing-dir data.txt', '% echo -existing-path', '% echo @[UNDEFINED]@',
+           '% echo @[TM]@', '% echo "@[L]@"', '% echo @[', '% echo ]@', '[', ']', '=', '!', '-', '--', '% echo \\', 'prog.sh \\',
+           'a' * 300, 'a/' * 2100 + 'b', '-python -existing-file nofile', '% true -stdin x', 'nofile', 'data.txt', 'hd', '.',
+           'prog.sh\nprog.sh', '% true\n% true', 'prog.sh -existing-file nofile', "prog.sh 'a", '#', '# c\n# d', ' ', '\t',
+           '% echo é\x00', "'a\x00'", '% ', '%echo', '$echo hi', '@S', '`x`', '`x', ':> x', '<<EOF\nEOF', 'including x',
+           '% echo -rel-home', '% echo -rel UNDEFINED a', '% echo -existing-file -rel UNDEFINED a', '% true\n-stdin -contents-of nofile',
+           '% true\n-stdin -contents-of', "% true\n-transformed-by replace a '\\1'", "% true\n-transformed-by grep '('",
+           '% true\n-transformed-by filter -line-nums 1/0', '% true\n-transformed-by filter line-num == [][0]',
+           '% true\n-transformed-by UNDEFINED', '% true\n-transformed-by run % true\n-transformed-by', '-python -c "pass" -stdin',
+           '% true\n-stdin -stdout-from %', '% true\n-stdin -stdout-from @ UNDEFINED']
 # lines that begin with `[` but are no phase header (the manual: `[` NAME `]`, NAME one of the six phases)
 BAD_HEADERS = ['[nophase]', '[]', '[setup', '[ setup ]', '[setup] x', '[SETUP]', '[setup][act]', '[[setup]]', '[assert]]',
                '[before_assert]', '[-]', '[é]', '[setup ]', '[ act]', '[before assert]', '[configuration]', '[a.b]']
@@ -194,6 +356,11 @@ def apply_op(toks, owner, op, tier_chars=None, elems=None):
 
     def prefer_instructions(cands):
         """targeted ops: 3 of 4 go to an instruction that is not a definition, if there is one"""
+        if owner and elems and op.get('k') in ('path', 'rel') and q % 4 == 1:
+            # the act phase is read by its own parser: a path there is a place of its own
+            pref = [i for i in cands if elems[owner[i]]['ph'] in ('act', 'conf')]
+            if pref:
+                return pref
         if owner and elems and q % 4 != 0:
             pref = [i for i in cands if elems[owner[i]]['name'] != 'def']
             return pref or cands
@@ -309,11 +476,14 @@ def apply_op(toks, owner, op, tier_chars=None, elems=None):
             voc = BAD[k] + EXTREME[k]
             toks[i] = [voc[w % len(voc)][0], 'mut']
     elif name in ('badval', 'extreme'):
-        cands = [i for i in movable if toks[i][1] in VALUE_KINDS and (name == 'extreme' or BAD[toks[i][1]])]
+        cands = [i for i in movable if vkind(toks[i][1]) and (name == 'extreme' or BAD[vkind(toks[i][1])])]
+        if op.get('k'):
+            # the op is directed at one vocabulary (bad_values with a focus)
+            cands = [i for i in cands if vkind(toks[i][1]) == op['k']] or cands
         i = pick(prefer_instructions(cands))
         if i is not None:
             kind = toks[i][1]
-            voc = BAD[kind] if name == 'badval' else EXTREME[kind]
+            voc = BAD[vkind(kind)] if name == 'badval' else EXTREME[vkind(kind)]
             tok_text, eff = voc[w % len(voc)]
             prev = toks[i - 1] if i > 0 else ['', '']
             info = {'op': name, 'kind': kind, 'index': i, 'elem': owner[i] if owner else None,
@@ -357,6 +527,20 @@ def apply_op(toks, owner, op, tier_chars=None, elems=None):
             info = {'op': name, 'kind': 'instr', 'index': i, 'elem': owner[i], 'line': line_of_token(toks, i),
                     'token': new, 'old': toks[i][0]}
             toks[i] = [new, 'mut']
+    elif name == 'actbad':
+        if owner and elems:
+            act_elems = sorted({owner[i] for i in range(len(toks)) if elems[owner[i]]['ph'] == 'act'
+                                and elems[owner[i]]['name'] != '(header)'})
+            e = pick(act_elems)
+            if e is not None:
+                idx = [i for i in range(len(toks)) if owner[i] == e and toks[i][1] != 'nl']
+                new = ACT_BAD[w % len(ACT_BAD)]
+                if idx:
+                    info = {'op': name, 'kind': 'act', 'index': idx[0], 'elem': e, 'line': line_of_token(toks, idx[0]),
+                            'token': new, 'effective': new, 'old': ' '.join(toks[i][0] for i in idx)}
+                    # the inner line breaks of the element go too: the element becomes the one new line
+                    last = max(i for i in range(len(toks)) if owner[i] == e)
+                    toks[idx[0]:last] = [[new, 'mut']]
     elif name in ('trunc', 'layout'):
         pass  # text level, see apply_text_op
     else:
